@@ -257,24 +257,59 @@ def abstract_domain(S, name, space, param_dims=None):
 
 
 class AbstractSampler:
-    """PointSampler operand under its contract: every call returns a FRESH Points object with
-    rows [K', n] in space `space` * params.space (row (k,j) carries parameter row k)."""
+    """PointSampler operand under its contract (C02 at sampler level): every call returns a FRESH Points object
+    in space `space` * params.space with rows [K', n]; row (k, j) carries parameter row k unchanged in the
+    parameter columns and its own columns satisfy the sampler's (uninterpreted) predicate Smp(x, params[k])."""
 
-    def __init__(self, S, name, space, n_points):
+    def __init__(self, S, name, space, n_points, param_vars=None):
         I = S.I
         self.S, self.I, self.name, self.space, self.n = S, I, name, space, n_points
+        self.vars = space_items(I, space)
+        self.dim = sum(d for _, d in self.vars)
         self.calls = []
+        self.Smp = {}
         obj = I.new_without_init(S.find(PSAMPLER))
         obj.f.update({"n_points": n_points, "density": None, "length": None, "filter_fn": None})
         obj.f["__overrides__"] = {"sample_points": self._sample_points}
         obj.f["__abstract__"] = self
         self.obj = obj
 
+    def pred(self, xs, ps):
+        key = len(ps)
+        if key not in self.Smp:
+            self.Smp[key] = z3.Function(f"{self.name}_smp{key}", *([z3.RealSort()] * (len(xs) + len(ps)) + [z3.BoolSort()]))
+        return self.Smp[key](*(list(xs) + list(ps)))
+
     def _sample_points(self, I, selfobj, params=None, device="cpu", **kw):
         if params is None:
             params = I.call(I.getattr(I.repo.find(POINTS), "empty"), [])
-        dims = sum(d for _, d in space_items(I, self.space))
-        t = Tensor(core.uninterp_tensor(f"{self.name}_pts", [dim_of(self.n), Dim([dims])], "real"))
-        p = I.instantiate(I.repo.find(POINTS), [t, self.space], {})
-        self.calls.append({"params": params, "device": device, "result": p})
+        has = I.truth(I.compare(__import__("ast").Gt(), I.pylib.b_len(I, params), 0))
+        pt = params.f["_t"].val if has else None
+        if pt is not None and pt.rank != 2:
+            raise Unsupported("abstract sampler: parameter points with several batch axes")
+        pd = pt.shape[0] if has else Dim([])
+        pcols = pt.shape[1].concrete() if has else 0
+        unmerged = list(pd.factors) + list(dim_of(self.n).factors)
+        rows = Dim(unmerged)
+        nfp = len(pd.factors)
+        from .tshape import split_digits
+
+        f = z3.Function(core.fresh_name(f"{self.name}_pts"), *([z3.IntSort()] * len(rows.factors) + [z3.IntSort(), z3.RealSort()]))
+        dim = self.dim
+        me = self
+
+        def fn(idx):
+            comps = idx[0]
+            xs = [f(*([zint(c) for c in comps] + [z3.IntVal(k)])) for k in range(dim)]
+            kd = tuple(split_digits(unmerged, comps)[:nfp])
+            ps = [zreal(pt.at([kd, (c,) if pcols != 1 else ()])) for c in range(pcols)] if has else []
+            hy = core.index_hyps(rows, comps)
+            I.ctx.axiom(z3.Implies(z3.And(hy) if hy else z3.BoolVal(True), me.pred(xs, ps)))
+            c = idx[1][0] if (dim + pcols) != 1 else 0
+            return core.select_comp(c, dim + pcols, [(lambda x=x: x) for x in xs + ps])
+
+        t = Tensor(STensor([rows, Dim([dim + pcols])], fn, "real", f"{self.name}.sample"))
+        space = self.space if not has else I.binop(__import__("ast").Mult(), self.space, params.f["space"])
+        p = I.instantiate(I.repo.find(POINTS), [t, space], {})
+        self.calls.append({"params": params, "device": device, "result": p, "rows": rows, "tensor": t})
         return p
